@@ -87,10 +87,16 @@ class Res:
 
 
 class VecV:
-    __slots__ = ("items",)
+    __slots__ = ("items", "canonical")
 
-    def __init__(self, items):
+    def __init__(self, items, canonical=None):
         self.items = items  # tuple of (guard, value); guards are absolute path conditions
+        self.canonical = canonical  # for the iteration sequence of a HashSet: the same members in a content-determined order
+
+
+class ArrayV(VecV):
+    """fixed-size array [T; N]: every element present; merged element-wise (so constant indices stay meaningful)"""
+    __slots__ = ()
 
 
 class StructV:
@@ -399,6 +405,8 @@ def merge(c, a, b):
         err_b = b.err if b.err is not None else a.err
         return Res(If(c, a.ok, b.ok), merge(c, val_a, val_b) if val_a is not None else None,
                    merge(c, err_a, err_b) if err_a is not None else None)
+    if isinstance(a, ArrayV) and isinstance(b, ArrayV) and len(a.items) == len(b.items):
+        return ArrayV(tuple((True, va if va is vb else merge(c, va, vb)) for (_, va), (_, vb) in zip(a.items, b.items)))
     if isinstance(a, VecV) and isinstance(b, VecV):
         k = 0
         while k < len(a.items) and k < len(b.items) and a.items[k] is b.items[k]:
@@ -746,13 +754,26 @@ class Machine:
         for i, st in enumerate(stmts):
             k = st["k"]
             if k == "let":
-                init = self.eval(st["init"], fr, guard) if st.get("init") is not None else None
-                if st.get("else") is not None:
-                    raise Unsupported("let-else at line %s" % st.get("line"))
+                if st.get("init") is not None and st["pat"]["k"] == "ptype" and st["init"].get("k") == "call" \
+                        and st["init"]["func"].get("k") == "path" and st["init"]["func"]["path"] in ("Default::default", "std::default::Default::default"):
+                    init = self.default_of(st["pat"]["ty"].replace(" ", ""))
+                else:
+                    init = self.eval(st["init"], fr, guard) if st.get("init") is not None else None
                 for name in pat_names(st["pat"]):
                     if name not in saved:
                         saved[name] = fr.vars.get(name, _MISSING)
-                self.bind(st["pat"], init, fr)
+                if st.get("else") is not None:
+                    # let PAT = init else { diverges }: run the else block where the pattern fails (it returns / breaks /
+                    # continues, so those paths are dead afterwards), bind on the others
+                    if isinstance(init, Alt):
+                        raise Unsupported("let-else on alternatives at line %s" % st.get("line"))
+                    c, binds = self.match_pat(st["pat"], init, fr)
+                    els = st["else"]
+                    r = self.branch(Not(c), fr, guard, lambda f, g: self.exec_block(els, f, g) if els.get("k") == "block" or "stmts" in els
+                                    else self.eval(els, f, g), lambda f, g: NEVER)
+                    fr.vars.update(binds)
+                else:
+                    self.bind(st["pat"], init, fr)
                 val = UNIT
             elif k == "sexpr":
                 v = self.eval(st["expr"], fr, guard)
@@ -772,6 +793,27 @@ class Machine:
             else:
                 fr.vars[name] = old
         return val
+
+    def default_of(self, ty):
+        """Default::default() of a written type"""
+        import re
+        m = re.match(r"^\[(.*);(\d+)\]$", ty)
+        if m:
+            return ArrayV(tuple((True, self.default_of(m.group(1))) for _ in range(int(m.group(2)))))
+        if ty.startswith("Vec<") or ty.startswith("HashMap<"):
+            return VecV(())
+        if ty.startswith("Option<"):
+            return Opt(False, None)
+        if ty in ("String", "&str"):
+            return ""
+        if ty == "bool":
+            return False
+        if ty in ("usize", "u8", "u16", "u32", "u64", "i32", "i64"):
+            return 0
+        ty = self.prog.resolve_type(ty)
+        if ty in self.prog.structs:
+            return StructV(ty, {f["name"]: self.default_of(f["ty"].replace(" ", "")) for f in self.prog.structs[ty]["fields"]})
+        raise Unsupported("Default::default() of %s" % ty)
 
     def bind(self, pat, val, fr):
         k = pat["k"]
@@ -865,7 +907,7 @@ class Machine:
                 if not isinstance(val, Res):
                     raise Unsupported("Ok pattern on %r" % type(val).__name__)
                 if val.val is None:
-                    return And(val.ok, False) if (not is_sym(val.ok) and not val.ok) else (val.ok, {})
+                    return (False, {}) if (not is_sym(val.ok) and not val.ok) else (val.ok, {})
                 c, b = self.match_sub(elems[0], val.val, fr)
                 return And(val.ok, c), b
             if name == "Err":
@@ -893,6 +935,26 @@ class Machine:
                     binds.update(b)
                 return cond, binds
             raise Unsupported("tuple-struct pattern %s on %s" % (pat["path"], type(val).__name__))
+        if k == "pstruct":
+            name = pat["path"].split("::")[-1]
+            if isinstance(val, EnumV):
+                if val.variant != name:
+                    return False, {}
+                fields = val.payload if isinstance(val.payload, dict) else None
+            elif isinstance(val, StructV):
+                fields = val.fields
+            else:
+                raise Unsupported("struct pattern %s on %s" % (pat["path"], type(val).__name__))
+            if fields is None:
+                raise Unsupported("struct pattern on a tuple variant")
+            cond, binds = True, {}
+            for f in pat["fields"]:
+                if f["member"] not in fields:
+                    raise Unsupported("struct pattern names unknown member %s" % f["member"])
+                c, b = self.match_sub(f["pat"], fields[f["member"]], fr)
+                cond = And(cond, c)
+                binds.update(b)
+            return cond, binds
         raise Unsupported("pattern kind %s" % k)
 
     def match_sub(self, pat, val, fr):
@@ -996,7 +1058,7 @@ class Machine:
         return TupleV(tuple(self.eval(x, fr, guard) for x in e["elems"]))
 
     def ev_array(self, e, fr, guard):
-        return VecV(tuple((True, self.eval(x, fr, guard)) for x in e["elems"]))
+        return ArrayV(tuple((True, self.eval(x, fr, guard)) for x in e["elems"]))
 
     def ev_cast(self, e, fr, guard):
         return self.eval(e["expr"], fr, guard)
@@ -1135,6 +1197,15 @@ class Machine:
             self.assign(target["base"], StructV(base.name, nf), fr, guard)
         elif k in ("unary", "ref"):
             self.assign(target["expr"], val, fr, guard)
+        elif k == "index":
+            base = self.eval(target["base"], fr, guard)
+            i = self.eval(target["index"], fr, guard)
+            if not isinstance(base, ArrayV) or not isinstance(i, int) or not 0 <= i < len(base.items):
+                raise Unsupported("assignment to an element: only a constant index into a fixed-size array is encoded (%s[%s])"
+                                  % (type(base).__name__, i))
+            items = list(base.items)
+            items[i] = (True, val)
+            self.assign(target["base"], ArrayV(tuple(items)), fr, guard)
         else:
             raise Unsupported("assignment target %s" % k)
 
@@ -1207,15 +1278,20 @@ class Machine:
                     return Opaque("match-fallthrough")
                 arm = arms[i]
                 c, binds = self.match_pat(arm["pat"], val, f2)
-                if arm.get("guard") is not None:
-                    raise Unsupported("match guard at line %s" % e.get("line"))
+                has_guard = arm.get("guard") is not None
+                if has_guard:
+                    # `pat if cond`: the guard is evaluated with the pattern's bindings, only where the pattern matches
+                    fg = f2.copy()
+                    fg.vars.update(binds)
+                    gc = self.as_bool(self.eval(arm["guard"], fg, And(g2, c)))
+                    c = And(c, gc)
 
                 def th(f3, g3):
                     f3.vars.update(binds)
                     return self.eval(arm["body"], f3, g3)
                 if not is_sym(c) and c:
                     return th(f2, g2)
-                if i == len(arms) - 1:
+                if i == len(arms) - 1 and not has_guard:
                     # last arm: exhaustive match => condition holds on this path
                     return th(f2, g2)
                 return self.branch(c, f2, g2, th, lambda f3, g3: rec(i + 1, f3, g3))
@@ -1335,6 +1411,8 @@ class Machine:
 
     def ev_for(self, e, fr, guard):
         it = self.eval(e["iter"], fr, guard)
+        if hasattr(self, "iter_value"):
+            it = self.iter_value(it)
         if isinstance(it, Opt):
             raise Unsupported("for over option")
         if not isinstance(it, VecV):
